@@ -360,6 +360,100 @@ def make_regions_run(nxp):
     return run
 
 
+FN_FL = "hypnotoad.cases.tokamak:TokamakEquilibrium.findLegs"
+
+
+def legs_tail():
+    """findLegs from `leg_lines = []` (tracing each leg to the wall) to its return, compiled as
+    a function of (self, xpoint, leg_points, step)."""
+    import ast
+    import inspect
+    import textwrap
+
+    from hypnotoad.cases import tokamak as T
+
+    fdef = ast.parse(textwrap.dedent(inspect.getsource(T.TokamakEquilibrium.findLegs))).body[0]
+    k = next(i for i, st in enumerate(fdef.body) if isinstance(st, ast.Assign) and any(isinstance(t, ast.Name) and t.id == "leg_lines" for t in st.targets))
+    f = ast.FunctionDef(name="_legs_tail", args=ast.arguments(posonlyargs=[], args=[ast.arg(arg=a) for a in ("self", "xpoint", "leg_points", "step")], kwonlyargs=[], kw_defaults=[], defaults=[]), body=fdef.body[k:], decorator_list=[], type_params=[])
+    mod = ast.Module(body=[f], type_ignores=[])
+    ast.fix_missing_locations(mod)
+    loc = {}
+    exec(compile(mod, "<vc:findLegs[tail]>", "exec"), T.__dict__, loc)
+    return loc["_legs_tail"], len(fdef.body) - k
+
+
+def run_legs_tail(ctx):
+    """Each leg line starts at the X-point, is traced AWAY from it along the poloidal field, ends
+    with the wall intersection; the leg whose strike point has the smaller major radius is
+    labelled inner."""
+    from hypnotoad.cases import tokamak as T
+    from hypnotoad.core.equilibrium import Point2D
+
+    tail, nst = legs_tail()
+    xp = Point2D(ctx.real("Rx"), ctx.real("Zx"))
+    legs = [(ctx.real("Rl%d" % k), ctx.real("Zl%d" % k)) for k in range(2)]
+    strikes = [Point2D(ctx.real("Rs%d" % k), ctx.real("Zs%d" % k)) for k in range(2)]
+    B = {}
+
+    def field(comp):
+        def f(r, z):
+            key = (comp, lift_id(r), lift_id(z))
+            if key not in B:
+                B[key] = (ctx.real("B%s!%d" % (comp, len(B))), r, z)
+            return B[key][0]
+
+        return f
+
+    me = types.SimpleNamespace(Bp_R=field("R"), Bp_Z=field("Z"), user_options=types.SimpleNamespace(leg_trace_atol=1e-8))
+    traces = []
+
+    def solve_ivp_stub(fun, span, pos, rtol=None, atol=None):
+        k = len(traces)
+        d = fun(0.0, pos)
+        nxt = (ctx.real("Rn%d" % k), ctx.real("Zn%d" % k))
+        traces.append(dict(start=pos, direction=d, span=span, next=nxt))
+        return types.SimpleNamespace(y=[[pos[0], nxt[0]], [pos[1], nxt[1]]])
+
+    calls = []
+
+    def wall_intersection(a, b):
+        calls.append((a, b))
+        leg_no = sum(1 for c in calls if c[0].R is legs[1][0]) and 1  # leg 1 once its start point has been used
+        n_here = sum(1 for c in calls if (c[0].R is legs[leg_no][0]) or True)
+        # first step of each leg: no crossing; second step: the strike point
+        steps_of_leg = [c for c in calls if c is not None]
+        return None
+
+    # simple deterministic schedule: each leg takes two steps, the second one hits the wall
+    state = dict(leg=0, step=0)
+
+    def wall_intersection(a, b):  # noqa: F811
+        state["step"] += 1
+        if state["step"] == 2:
+            hit = strikes[state["leg"]]
+            state["leg"] += 1
+            state["step"] = 0
+            return hit
+        return None
+
+    me.wallIntersection = wall_intersection
+    # pre: the field does not vanish at the first point of a leg
+    with patched((T, "solve_ivp", solve_ivp_stub)):
+        out = tail(me, xp, list(legs), 0.01)
+    with spec_mode():
+        lines = [out["inner"], out["outer"]]
+        ctx.oblige(out["inner"][-1].R <= out["outer"][-1].R, "the leg labelled inner has the strike point with the smaller major radius")
+        ctx.oblige(TRUE({id(l[-1]) for l in lines} == {id(sp) for sp in strikes}), "each leg ends at its wall intersection")
+        ctx.oblige(TRUE(all(l[0] is xp and len(l) == 3 for l in lines)), "each leg line starts AT the X-point, then the traced points, then the wall point")
+        for k in (0, 2):
+            t = traces[k]
+            leg = legs[k // 2]
+            ctx.oblige(t["direction"][0] * (leg[0] - xp.R) + t["direction"][1] * (leg[1] - xp.Z) >= 0, "leg %d is traced away from the X-point" % (k // 2))
+            ctx.oblige(TRUE(t["start"][0] is leg[0] and t["span"] == (0.0, 0.01)), "leg %d: tracing starts at the leg's first point, one step at a time" % (k // 2))
+        ctx.oblige(TRUE(traces[1]["start"][0] is traces[0]["next"][0] and traces[3]["start"][0] is traces[2]["next"][0]), "each step continues from the end of the previous one")
+    return out
+
+
 def planted(S):
     """Smooth psi = sum of Gaussians with off-grid centres; reference critical points from an
     independent Newton solve on the analytic gradient."""
@@ -481,6 +575,10 @@ def build(S):
         S.contract("find_critical[5x5, maxits=1]", FN, run_newton, expected_exceptions=(numpy.linalg.LinAlgError,), raises_ok=lambda p: True, shape="5x5 grid (one interior candidate), psi samples of an arbitrary quadratic, maxits=1")
         _, nst = tail_function()
         S.extraction.append(dict(function="critical.find_critical[tail]", sliced="last %d statements of the body (from `def remove_dup` on) compiled as a function of (R, Z, f, xpoint, opoint); nothing dropped" % nst))
+        S.under_contract(FN_FL)
+        _, nfl = legs_tail()
+        S.extraction.append(dict(function="TokamakEquilibrium.findLegs[tail]", sliced="last %d statements (from `leg_lines = []`) compiled as a function of (self, xpoint, leg_points, step); nothing dropped" % nfl))
+        S.contract("findLegs[tracing and inner/outer labels]", FN_FL, run_legs_tail, expected_exceptions=(), shape="two legs, two steps each; solve_ivp and wallIntersection by contract stubs", assume_safety="the poloidal field does not vanish along a leg")
         S.under_contract(FN_MR)
         for nxp in (1, 2, 3):
             S.contract("makeRegions[X-point filter, %d found]" % nxp, FN_MR, make_regions_run(nxp), expected_exceptions=(), shape="%d X-points with symbolic psi and positions; polygons.intersect by contract" % nxp)
